@@ -49,7 +49,7 @@ use std::sync::{Arc, Mutex};
 /// clear the union-find table (steered-away cases are counted as
 /// `excluded_known_displaced_clear`); the dedicated golden case re-demonstrates the
 /// defect on every run. Set to `false` once the defect is repaired.
-const EXCLUDE_DISPLACED_CLEAR: bool = true;
+const EXCLUDE_DISPLACED_CLEAR: bool = false;
 
 /// `Database::clone` shares the `NotificationList` (an `Arc`) between the original and the clone:
 /// a `merge_all` on one of them swallows the "table is dirty" notifications of the other, whose
@@ -58,7 +58,7 @@ const EXCLUDE_DISPLACED_CLEAR: bool = true;
 /// database before switching to another clone, so no database ever has staged data while a
 /// sibling merges (counted as `excluded_known_clone_shared_notifications`); one golden case
 /// re-demonstrates the defect. Set to `false` once the defect is repaired.
-const EXCLUDE_CLONE_SHARED_NOTIFY: bool = true;
+const EXCLUDE_CLONE_SHARED_NOTIFY: bool = false;
 
 const KNOWN_SIG: &str = "displaced-clear-stale-lookup";
 const CLONE_SIG: &str = "clone-shares-notification-list";
@@ -678,10 +678,10 @@ impl<'c> Exec<'c> {
         let w = self.cur;
         let nt = self.nt();
         if t == nt {
-            // DEVIATION: Table::clear is documented to drop pending data; DisplacedTable::clear does
-            // not (same incomplete function as the known finding). Settle first so that the check
-            // stays on the single known signature.
-            if !self.worlds[w].muf.pending.is_empty() {
+            // Table::clear is documented to drop pending data; the unrepaired DisplacedTable::clear does
+            // not (same incomplete function as the known finding), so while that finding is excluded the
+            // staged unions are merged first. Otherwise the model drops them, as documented.
+            if EXCLUDE_DISPLACED_CLEAR && !self.worlds[w].muf.pending.is_empty() {
                 self.merge_all()?;
             }
             let was_nonempty = !self.worlds[w].muf.rows.is_empty();
